@@ -175,6 +175,8 @@ def is_expr(n):
 
 def loc(n):
     fn = n.get("_fn")
+    if n.get("osp"):          # a node inlined from a private helper: report where it was written
+        return "%s:%d" % (n.get("ofile") or (fn["file"] if fn else "?"), n["osp"][0])
     sp = n.get("sp") or (fn and fn.get("span")) or [0]
     return "%s:%d" % (fn["file"] if fn else "?", sp[0])
 
@@ -189,10 +191,17 @@ def strip(n):
 
 
 class Pdb:
-    def __init__(self, d):
+    def __init__(self, d, canon=True):
         self.d = d
         self.fns = {}
         self.by_name = {}
+        self.canon_stats = {}
+        if canon and not d.get("_canon"):
+            from .canon import canonicalise
+            self.canon_stats = canonicalise(d)
+            d["_canon"] = self.canon_stats
+        elif d.get("_canon"):
+            self.canon_stats = d["_canon"]
         for f in d["fns"]:
             link(f)
             p = f["path"]
@@ -213,7 +222,7 @@ class Pdb:
         return self.fns.get(path)
 
     def local_fns(self):
-        return [f for f in self.d["fns"] if f["kind"] in ("Fn", "AssocFn")]
+        return [f for f in self.d["fns"] if f["kind"] in ("Fn", "AssocFn") and not f.get("inlined_everywhere")]
 
     def find(self, self_ty=None, name=None, trait=None, pred=None):
         out = []
